@@ -127,6 +127,9 @@ type Core struct {
 	closeHeight  map[string]int64 // height of the block that closed the end
 	dirty        bool // the next block carries pre-block application writes (v1 mock send, async ack)
 	dirtyNow     bool // ... the block being judged does
+	mept         uint64
+	mutInfo      string
+	mutNeutral   bool
 	draining     bool
 	attempts     map[int64]int
 }
@@ -149,6 +152,12 @@ type CoreOptions struct {
 	Payloads   int // max payloads for v2
 	TightTmo   int // percent of packets with tight timeouts
 	Delay      uint64
+	WLocalVerify int
+	WDelayProbe  int
+	MEPT         uint64 // 03-connection MaxExpectedTimePerBlock (ns); 0 = default 30 s
+	UnbondSecs   int64
+	FarTimeouts  bool // packets use timeouts far in the future (worlds with very long delays)
+	TrustingSecs int64 // light-client trusting period in seconds (0 = 14 days)
 	FrontBias  int // percent: relayer picks the front packet of an ordered channel (0 = default 70)
 	GuardBoundary int // percent of sends with timeouts on a send-guard boundary (0 = default 5)
 }
@@ -183,8 +192,12 @@ func (p *Core) Setup(w *sim.World) {
 	p.lastSend, p.lastRecv, p.lastAck = map[string]uint64{}, map[string]uint64{}, map[string]uint64{}
 	p.closed = map[string]bool{}
 	p.closedAny, p.closeHeight, p.attempts = map[string]bool{}, map[string]int64{}, map[int64]int{}
-	a := sim.NewChain(0, sim.ChainConfig{ChainID: "simchain-1"}, w.Stats)
-	b := sim.NewChain(1, sim.ChainConfig{ChainID: "simchain-2"}, w.Stats)
+	p.mept = p.Opt.MEPT
+	if p.mept == 0 {
+		p.mept = uint64(30 * time.Second)
+	}
+	a := sim.NewChain(0, sim.ChainConfig{ChainID: "simchain-1", MaxExpectedTimePerBlock: p.Opt.MEPT}, w.Stats)
+	b := sim.NewChain(1, sim.ChainConfig{ChainID: "simchain-2", MaxExpectedTimePerBlock: p.Opt.MEPT}, w.Stats)
 	p.C = []*sim.Chain{a, b}
 	w.Chains = p.C
 	p.Skew = make([]time.Duration, 2)
@@ -193,6 +206,12 @@ func (p *Core) Setup(w *sim.World) {
 		p.install(c)
 	}
 	tm := sim.DefaultTMConfig()
+	if p.Opt.TrustingSecs > 0 {
+		tm.TrustingPeriod = time.Duration(p.Opt.TrustingSecs) * time.Second
+	}
+	if p.Opt.UnbondSecs > 0 {
+		tm.UnbondingPeriod = time.Duration(p.Opt.UnbondSecs) * time.Second
+	}
 	ea, eb := sim.NewClientPair(a, b, tm, tm)
 	sim.OpenConnection(ea, eb, p.Opt.Delay)
 	var chU *sim.ChanEnd
